@@ -163,8 +163,10 @@ def job_run(lo, hi, tier, seed):
     inv = E.inv()
     pm = st0.mem[ctx['pm']].cells[0][1]
     pc = R['pc']
-    o = z3.Select(pm, z3.ZeroExt(0, pc))
-    pre = inv + [R['prpage'] == 0, z3.ULT(pc, 0x3FFFE)]
+    # the program page register is symbolic: both words of an instruction are fetched from page prpage (address bits 18..21)
+    pgbits = z3.ZeroExt(32 - R['prpage'].size(), R['prpage']) << 18
+    o = z3.Select(pm, pc | pgbits)
+    pre = inv + [z3.ULT(pc, 0x3FFFE)]
     for i in range(lo, hi):
         row = E.rows[i]
         if row['name'] in ('trap', 'retd', 'retid', 'retidc', 'mov_dvm', 'mov_dvm_to'):
@@ -201,14 +203,14 @@ def job_run(lo, hi, tier, seed):
         exp = 1 + row['expanded']
         goals = [nreads == exp, z3.Not(kit.exit_cond(ex, ('assert', 'abort', 'trap')))]
         if len(reads) >= 1:
-            goals.append(bv(reads[0][1], 32) == pc)
+            goals.append(bv(reads[0][1], 32) == (pc | pgbits))
         if row['expanded'] and len(reads) >= 2:
-            goals.append(bv(reads[1][1], 32) == pc + 1)
+            goals.append(bv(reads[1][1], 32) == ((pc + 1) | pgbits))
         if len(calls) == 1:
             goals.append(calls[0][0])
             goals.append(bv(calls[0][1], 16) == o)
             if row['expanded'] and len(reads) >= 2:
-                goals.append(bv(calls[0][2], 16) == z3.Select(pm, pc + 1))
+                goals.append(bv(calls[0][2], 16) == z3.Select(pm, (pc + 1) | pgbits))
         else:
             goals.append(z3.BoolVal(False))
         if len(decs) == 1:
@@ -228,7 +230,7 @@ def job_run(lo, hi, tier, seed):
         nxt = z3.If(z3.And(R['rep'] != 0, R['repc'] != 0), pc, pc + exp)
         closes = z3.And(R['lp'] != 0, frame('end') + 1 == nxt)
         goals.append(z3.Implies(R['ie'] == 0, post_pc == z3.If(z3.And(closes, frame('lc') != 0), frame('start'), nxt)))
-        ck.prove('Run.length[row %d %s]' % (i, row['name']), A, z3.And(*goals), vars=dict({'pc': pc, 'opcode': o, 'second': z3.Select(pm, pc + 1)}, **{'r.' + f: R[f] for f in R if f in ('rep', 'repc', 'lp', 'bcn', 'ie') or f.startswith('bkrep_stack')}),
+        ck.prove('Run.length[row %d %s]' % (i, row['name']), A, z3.And(*goals), vars=dict({'pc': pc, 'opcode': o, 'second': z3.Select(pm, (pc + 1) | pgbits), 'prpage': R['prpage']}, **{'r.' + f: R[f] for f in R if f in ('rep', 'repc', 'lp', 'bcn', 'ie') or f.startswith('bkrep_stack')}),
                  sample=('Run(1) with pmem[pc] in row %d (%s): %d program read(s) at pc%s, decoders[opcode] indexed by the fetched word, handler called with (opcode%s); straight-line pc advances by %d so the operand word is never fetched as an instruction'
                          % (i, row['name'], exp, ', pc+1' if row['expanded'] else '', ', pmem[pc+1]' if row['expanded'] else '', exp)) if i % 40 == 0 else None)
         ck.ninstr += ex.ninstr - n0
@@ -298,7 +300,7 @@ def run(tier, seed):
                      'Matcher<Interpreter>::Matches', 'Decode<Interpreter>', 'Interpreter::Run (fetch/dispatch scaffold)', 'Matcher<Interpreter>::call -> Proxy::operator() -> handlers (unused-bit rows)'])
     ck.bounds += ['16-bit opcode, 16-bit second word, full RegisterState under Inv: no value bound', 'Decode per row: quick tier = rows with EXCEPT clauses + a seeded sample; thorough = every row',
                   'NOT DECIDED: that the assembler (parser.cpp) sees the same form (string/hash-map code, see C05/DESIGN section 3)']
-    ck.assumptions += ['Run scaffold: prpage == 0, rep == 0, pc < 0x3FFFE, Inv; handler abstracted to a call event', 'Unused<k> positions are read from decoder.h text (template arguments leave no trace in the IR data)']
+    ck.assumptions += ['Run scaffold: pc < 0x3FFFE, Inv (program page register symbolic; program memory is an unbounded array here - that page != 0 leaves the 0x40000-word memory is the listed C18 finding); handler abstracted to a call event', 'Unused<k> positions are read from decoder.h text (template arguments leave no trace in the IR data)']
     ck.stubs += ['MemoryInterface::ProgramRead -> SMT array select + event', 'std::vector<Matcher>::operator[] on Interpreter::decoders -> the table row under test (decoders[o] is Decode<Interpreter>(o), which is the obligation Decode[row])'] + E.tabulated
     o = z3.BitVec('o', 16)
     jobs = []
